@@ -422,58 +422,86 @@ def gen_mol(rng, tables, max_atoms=14):
     return mol
 
 
-# aromatic ring templates: (atom elements with h / charge, Kekule double-bond positions)
-_ARO_RINGS = (
-    # benzene, pyridine, pyrimidine
-    ([("C", 0, 0)] * 6, (0, 2, 4)),
-    ([("N", 0, 0)] + [("C", 0, 0)] * 5, (0, 2, 4)),
-    ([("N", 0, 0), ("C", 0, 0), ("N", 0, 0)] + [("C", 0, 0)] * 3, (0, 2, 4)),
-    # pyrrole [nH], furan, thiophene: heteroatom at 0 with no double bond
-    ([("N", 1, 0)] + [("C", 0, 0)] * 4, (1, 3)),
-    ([("O", 0, 0)] + [("C", 0, 0)] * 4, (1, 3)),
-    ([("S", 0, 0)] + [("C", 0, 0)] * 4, (1, 3)),
-    # pyridinium [nH+]
-    ([("N", 1, 1)] + [("C", 0, 0)] * 5, (0, 2, 4)),
+# aromatic templates: atoms (element, explicit H, charge), ring bonds, one Kekule structure
+# (the set of double bonds).  Every Kekule structure of these systems gives each atom the
+# same bond-order sum (each matched atom exactly one double bond, pyrrole-type atoms none),
+# so the sums are known independently of which structure the library's matching picks.
+def _ring(n, start=0):
+    return [(start + i, start + (i + 1) % n) for i in range(n)]
+
+
+_NAPH_BONDS = [(0, 1), (1, 2), (2, 3), (3, 4), (4, 9), (9, 0), (4, 5), (5, 6), (6, 7), (7, 8), (8, 9)]
+_NAPH_DBL = [(0, 1), (2, 3), (4, 9), (5, 6), (7, 8)]
+_INDO_BONDS = [(0, 1), (1, 2), (2, 3), (3, 4), (4, 5), (5, 6), (6, 7), (7, 8), (8, 3), (8, 0)]
+_INDO_DBL = [(1, 2), (3, 8), (4, 5), (6, 7)]
+_C = ("C", 0, 0)
+_ARO_TEMPLATES = (
+    ([_C] * 6, _ring(6), [(0, 1), (2, 3), (4, 5)]),                                   # benzene
+    ([("N", 0, 0)] + [_C] * 5, _ring(6), [(0, 1), (2, 3), (4, 5)]),                   # pyridine
+    ([("N", 0, 0), _C, ("N", 0, 0)] + [_C] * 3, _ring(6), [(0, 1), (2, 3), (4, 5)]),  # pyrimidine
+    ([("N", 1, 0)] + [_C] * 4, _ring(5), [(1, 2), (3, 4)]),                           # pyrrole
+    ([("O", 0, 0)] + [_C] * 4, _ring(5), [(1, 2), (3, 4)]),                           # furan
+    ([("S", 0, 0)] + [_C] * 4, _ring(5), [(1, 2), (3, 4)]),                           # thiophene
+    ([("Se", 0, 0)] + [_C] * 4, _ring(5), [(1, 2), (3, 4)]),                          # selenophene
+    ([("N", 1, 1)] + [_C] * 5, _ring(6), [(0, 1), (2, 3), (4, 5)]),                   # pyridinium
+    ([("N", 0, 0), _C, ("N", 1, 0), _C, _C], _ring(5), [(0, 1), (3, 4)]),             # imidazole
+    ([_C] * 10, _NAPH_BONDS, _NAPH_DBL),                                              # naphthalene
+    ([("N", 0, 0)] + [_C] * 9, _NAPH_BONDS, _NAPH_DBL),                               # quinoline
+    ([("N", 1, 0)] + [_C] * 8, _INDO_BONDS, _INDO_DBL),                               # indole
+    ([("O", 0, 0)] + [_C] * 8, _INDO_BONDS, _INDO_DBL),                               # benzofuran
+    ([("S", 0, 0)] + [_C] * 8, _INDO_BONDS, _INDO_DBL),                               # benzothiophene
 )
 
 
 def gen_aromatic_mol(rng, tables):
-    """One aromatic ring (spelled with lowercase atoms and implicit aromatic
-    bonds) carrying substituents.  Every Kekule structure gives each ring atom
-    exactly one (pyrrole-type heteroatom: zero) double bond, so the per-atom
-    bond-order sums are known independently of which structure the library's
-    matching picks."""
-    ring, doubles = rng.choice(_ARO_RINGS)
+    """An aromatic system (lowercase atoms, implicit aromatic bonds) carrying
+    single-bonded substituents, possibly with a second aliphatic fragment."""
+    atoms, rbonds, doubles = rng.choice(_ARO_TEMPLATES)
     mol = Mol()
-    m = len(ring)
-    for (el, h, ch) in ring:
+    for (el, h, ch) in atoms:
         a = _new_atom(el, ch, h)
         a["aro"] = True
         mol.atoms.append(a)
         mol.frag.append(0)
-    for i in range(m):
-        a, b = i, (i + 1) % m
+    dbl = {(min(a, b), max(a, b)) for a, b in doubles}
+    for a, b in rbonds:
         k = (min(a, b), max(a, b))
-        mol.bonds[k] = 2 if i in doubles else 1
+        mol.bonds[k] = 2 if k in dbl else 1
         mol.arom.add(k)
     K = rng.choice(tables)
     val = mol.valences()
-    for i in range(m):
+    deg = [0] * len(atoms)
+    for a, b in rbonds:
+        deg[a] += 1
+        deg[b] += 1
+    for i in range(len(atoms)):
         a = mol.atoms[i]
-        if a["el"] != "C" or rng.random() < 0.5:
+        if a["el"] != "C" or deg[i] != 2 or rng.random() < 0.5:
             continue
-        cap = capacity(K, a["el"], a["ch"])
-        # a ring carbon has 3 used; one substituent of order 1 is the chemistry;
-        # boundary bias: pick the order so that the atom lands at cap-1, cap, cap+1
-        want = cap + rng.choice((-1, 0, 0, 1)) - val[i]
-        if want < 1:
-            continue
-        o = 1 if want > 1 and rng.random() < 0.7 else min(want, 1)
-        el = rng.choice(("F", "Cl", "C", "N", "O"))
+        # one single-bonded substituent: the ring carbon lands at 4; with boundary bias the
+        # *substituent* is tuned instead (its own capacity - 1 / 0 / + 1)
+        el = rng.choice(("F", "Cl", "C", "N", "O", "S", "B", "I"))
         j = len(mol.atoms)
         mol.atoms.append(_new_atom(el))
         mol.frag.append(0)
-        mol.bonds[(i, j)] = o
-        val[i] += o
-        val.append(o)
+        mol.bonds[(i, j)] = 1
+        val[i] += 1
+        val.append(1)
+        target = capacity(K, el, 0) + rng.choice((-1, 0, 0, 1))
+        guard = 0
+        while val[j] < target and guard < 8:
+            guard += 1
+            need = target - val[j]
+            lel, o = rng.choice([l for l in _LEAVES if l[1] <= need])
+            m = len(mol.atoms)
+            mol.atoms.append(_new_atom(lel))
+            mol.frag.append(0)
+            mol.bonds[(j, m)] = o
+            val[j] += o
+            val.append(o)
+    if rng.random() < 0.2:      # a second, aliphatic fragment
+        k = len(mol.atoms)
+        mol.atoms.append(_new_atom(rng.choice(("C", "N", "O", "Na", "Cl")), rng.choice((0, 0, 1, -1))))
+        mol.frag.append(1)
+    assert val + [mol.atoms[i]["h"] for i in range(len(val), len(mol.atoms))] == mol.valences()
     return mol
